@@ -209,6 +209,19 @@ func (t *Transcoder) registerMethod(handler http.Handler, methodDesc protoreflec
 			methodDesc.Output().FullName(), methodDesc.FullName(), err)
 	}
 
+	// The route targets and parameters of this method are computed from the
+	// descriptors in methodDesc. A resolver may know the message types by name
+	// but from another copy of the schema (for example the generated types in
+	// the global registry while the service was described dynamically). Fields
+	// of one copy cannot be used to access messages of the other, so in that
+	// case use dynamic messages of the descriptors we were given.
+	if requestType.Descriptor() != methodDesc.Input() {
+		requestType = dynamicpb.NewMessageType(methodDesc.Input())
+	}
+	if responseType.Descriptor() != methodDesc.Output() {
+		responseType = dynamicpb.NewMessageType(methodDesc.Output())
+	}
+
 	methodConf := &methodConfig{
 		serviceOptions: opts,
 		descriptor:     methodDesc,
